@@ -46,6 +46,32 @@ Theorem C07_deconv2_edge_padding_3x3_adjoint : forall (n : nat) (P : list (list 
 Proof. exact deconv2_edge3_adjoint. Qed.
 Print Assumptions C07_deconv2_edge_padding_3x3_adjoint.
 
+(* ... and with a one-pixel PSF (a scaling): size 1 and 3 are exactly the sizes whose padding is one replicated pixel at most *)
+Theorem C07_deconv2_edge_padding_1x1_adjoint : forall (n : nat) (P : list (list Qc)),
+  wf_mat 1 P -> length P = 1%nat ->
+  forall x y, length x = (n * n)%nat -> length y = (n * n)%nat ->
+  exists fx ay, forward (deconv2_model BEdge 1 n P) (V1 x) = Some (V1 fx) /\
+                adjoint (deconv2_model BEdge 1 n P) (V1 y) = Some (V1 ay) /\
+                length fx = (n * n)%nat /\ length ay = (n * n)%nat /\ qdot fx y = qdot x ay.
+Proof. exact deconv2_edge1_adjoint. Qed.
+Print Assumptions C07_deconv2_edge_padding_1x1_adjoint.
+
+(* 1-d (scipy.ndimage mode 'reflect' = half-sample symmetric): the convolution with a symmetric PSF of odd length is
+   self-adjoint, so Deconvolution1D(BC='reflect') with such a PSF (every shipped 1-d PSF of odd size) has a SYMMETRIC model
+   matrix: adjoint and forward are the same map *)
+Theorem C07_conv1_symmetric_padding_selfadjoint : forall (h : nat) (P x y : list Qc),
+  length P = (2 * h + 1)%nat -> rev P = P -> length x = length y ->
+  qdot (conv1 BSymmetric P x) y = qdot x (conv1 BSymmetric P y).
+Proof. exact conv1_sym_selfadjoint. Qed.
+Print Assumptions C07_conv1_symmetric_padding_selfadjoint.
+
+Theorem C07_deconv1_reflect_symmetric : forall (h : nat) (P : list Qc) (n : nat) (y : list Qc),
+  length P = (2 * h + 1)%nat -> rev P = P -> length y = n ->
+  adjoint (mat_model n (deconv1_matrix false BSymmetric P n) (GId n) (GId n)) (V1 y) =
+  forward (mat_model n (deconv1_matrix false BSymmetric P n) (GId n) (GId n)) (V1 y).
+Proof. exact deconv1_reflect_symmetric. Qed.
+Print Assumptions C07_deconv1_reflect_symmetric.
+
 (* the hypotheses are satisfiable: the 3x3 cross PSF; and the guard is needed: an asymmetric PSF fails (C07_deconv2_refuted) *)
 Example C07_example_sympad :
   let P := zm [[0; 1; 0]; [1; 2; 1]; [0; 1; 0]]%Z in
